@@ -267,10 +267,12 @@ Definition remove (fs : node) (cs : list bytes) (trail : bool) : node * result :
   end.
 
 (* the path string as the kernel reads it; the empty string is ENOENT for every call *)
+Definition trail_of (s : bytes) : bool := ends_sep s && negb (forallb is_sep s).
+
 Definition remove_path (fs : node) (s : bytes) : node * result :=
   match s with
   | [] => (fs, Some ENOENT)
-  | _ => remove fs (comps s) (ends_sep s && negb (forallb is_sep s))
+  | _ => remove fs (comps s) (trail_of s)
   end.
 
 (* StaleFileRemovalCommand::execute: every path to delete is removed, failures are reported and ignored *)
@@ -321,6 +323,25 @@ Definition remove_spec (fs : node) (cs : list bytes) (trail : bool) : node * boo
   | Some (Dir _) => (del fs cs, true)
   | Some _ => if trail then (fs, false) else (del fs cs, true)
   end.
+
+(* does remove_spec remove something? *)
+Definition removable_at (fs : node) (cs : list bytes) (trail : bool) : bool :=
+  match get fs cs with
+  | None => false
+  | Some (Dir _) => true
+  | Some _ => negb trail
+  end.
+
+Definition removable (fs : node) (d : bytes) : bool := removable_at fs (comps d) (trail_of d).
+
+(* q lies at or beneath one of the paths of ds that names something removable in fs *)
+Definition covered (fs : node) (ds : list bytes) (q : list bytes) : bool :=
+  existsb (fun d => removable fs d && comp_prefix (comps d) q) ds.
+
+(* the scope of the lexical theorems about a deletion list: every path has a component, none is "." or "..",
+   and no component before the last one is a link *)
+Definition stale_scope (fs : node) (ds : list bytes) : Prop :=
+  forall d, In d ds -> comps d <> [] /\ plain_comps (comps d) = true /\ no_link_on_the_way fs (comps d) = true.
 
 Definition succeeded (r : result) : bool := match r with None => true | Some _ => false end.
 
